@@ -588,7 +588,9 @@ fn apply(st: &mut State, line: &str, out: &mut String) {
                     .filter(|a| a.length > 0)
                     .map(|a| bits_of(&a.identifier_bytes))
                     .collect();
-                opline = format!("op clr {} | {}", t[1], order.join(" "));
+                if !line.contains('|') {
+                    opline = format!("op clr {} | {}", t[1], order.join(" "));
+                }
                 w.clear();
             }
         }
@@ -773,6 +775,23 @@ fn apply(st: &mut State, line: &str, out: &mut String) {
                 }
             }
         }
+        "fault" => {
+            // fault <drop|clone|eq|ser|de> k: the k-th such callback of the next operation panics
+            let kind = match t[1] {
+                "drop" => Kind::Drop,
+                "clone" => Kind::Clone,
+                "eq" => Kind::Eq,
+                "ser" => Kind::Ser,
+                "de" => Kind::De,
+                _ => Kind::Dbg,
+            };
+            ledger::arm(kind, v64(2));
+        }
+        "dbg" => {
+            if let Some(w) = st.worlds[u(1)].as_ref() {
+                ret = format!("len {}", format!("{:?}", w).len());
+            }
+        }
         "eq" => {
             let (a, b) = (u(1), u(2));
             if let (Some(x), Some(y)) = (st.worlds[a].as_ref(), st.worlds[b].as_ref()) {
@@ -792,6 +811,7 @@ fn main() {
     } else {
         Box::new(std::io::BufReader::new(std::io::stdin()))
     };
+    brood_verif_harness::alloc_audit::init_main_thread();
     std::panic::set_hook(Box::new(|_| {}));
     let threads: usize = std::env::var("VERIF_POOL").ok().and_then(|s| s.parse().ok()).unwrap_or(4);
     let _ = rayon::ThreadPoolBuilder::new().num_threads(threads).build_global();
@@ -823,11 +843,22 @@ fn main() {
             continue;
         }
         if line == "end" {
-            st.worlds.clear();
+            ledger::disarm();
+            // Dropping a world must always be possible, whatever happened before.
+            let worlds = std::mem::take(&mut st.worlds);
+            if catch_unwind(AssertUnwindSafe(move || drop(worlds))).is_err() {
+                let _ = writeln!(out, "xa world-drop-panicked");
+            }
             let (live, dd) = ledger::audit();
             let _ = writeln!(out, "audit live={:?} double={:?}", live, dd);
-            st.issued.clear();
+            st.issued = Vec::new();
             ledger::reset();
+            let problems = brood_verif_harness::alloc_audit::take_problems();
+            if !problems.is_empty() {
+                let _ = writeln!(out, "xa {}", problems.join(" ; "));
+            }
+            let (leaks, a, f, r) = brood_verif_harness::alloc_audit::end_of_case();
+            let _ = writeln!(out, "alloc leaks={:?} allocs={} frees={} reallocs={}", leaks, a, f, r);
             so.write_all(out.as_bytes()).unwrap();
             continue;
         }
@@ -845,20 +876,42 @@ fn main() {
             })
             .collect::<Vec<_>>()
             .join(" ");
+        // The table order `clear` visits archetypes in is an oracle input: record it before the call.
+        let resolved = if resolved.starts_with("clr ") && !resolved.contains('|') {
+            let ws: usize = resolved.split_whitespace().nth(1).and_then(|x| x.parse().ok()).unwrap_or(0);
+            match st.worlds.get(ws).and_then(|w| w.as_ref()) {
+                Some(w) => {
+                    let d = w.verif_dump();
+                    let order: Vec<String> =
+                        d.archetypes.iter().filter(|a| a.length > 0).map(|a| bits_of(&a.identifier_bytes)).collect();
+                    format!("{} | {}", resolved, order.join(" "))
+                }
+                None => resolved,
+            }
+        } else {
+            resolved
+        };
         let line: &str = &resolved;
+        let is_fault = line.starts_with("fault ");
         let r = catch_unwind(AssertUnwindSafe(|| {
+            let _scope = brood_verif_harness::alloc_audit::enter(1);
             let mut o = String::new();
             apply(&mut st, line, &mut o);
             o
         }));
+        let fired = if is_fault { false } else { ledger::disarm() };
         match r {
             Ok(o) => out.push_str(&o),
             Err(_) => {
                 let _ = writeln!(out, "op {}", line);
-                let _ = writeln!(out, "ret panic");
+                let _ = writeln!(out, "ret panic{}", if fired { "-injected" } else { "" });
             }
         }
         let _ = writeln!(out, "{}", events_line());
+        let problems = brood_verif_harness::alloc_audit::take_problems();
+        if !problems.is_empty() {
+            let _ = writeln!(out, "xa {}", problems.join(" ; "));
+        }
         let issued = st.issued.clone();
         for (ws, w) in st.worlds.iter_mut().enumerate() {
             if let Some(w) = w.as_mut() {
